@@ -50,7 +50,7 @@ package controllers
 //@ props C01,C02,C03,C04,C05,C09,C11
 //@ func package-operator.run/internal/controllers.(*PhaseReconciler).desiredObject
 //@   readonly
-//@   fresh desiredObj
+//@   fresh desiredObj, objid(desiredObj)
 //@   ensures desiredObj != nil && fresh(objid(desiredObj)) && desiredObj.Object == objid(desiredObj) && desiredObj.Object != nil
 //@   ensures rev(desiredObj) == ownerRev(owner) && !revMalformed(desiredObj)
 //@   ensures phaseObject.Object.Object != nil ==> ns(desiredObj) == (if len(ns(phaseObject.Object)) == 0 then ns(clientObj(owner)) else ns(phaseObject.Object))
@@ -60,7 +60,8 @@ package controllers
 
 //@ func package-operator.run/internal/controllers.(*defaultPatcher).Patch
 //@   like package-operator.run/internal/controllers.patcher.Patch
-//@   sink Writer.Patch#1 requires [C02] ownerRefsId(patch) == ownerRefsId(updatedObj)
+//@   sink Writer.Patch#1 requires [C02] ownerRefsId(patch) == ownerRefsId(updatedObj) && objid(arg1) == objid(updatedObj)
+//@   sink fixFieldManagers:Writer.Patch#1 requires [C01] objid(arg1) == objid(currentObj)
 
 //@ func package-operator.run/internal/controllers.(*PhaseReconciler).reconcilePhaseObject
 //@   requires [C03] !failedSoFar()
@@ -88,9 +89,9 @@ package controllers
 
 //@ func package-operator.run/internal/controllers.(*PhaseReconciler).teardownPhaseObject
 //@   requires [C04] !tdPending()
-//@   sink Writer.Delete#1 requires [C05] lastGet() == 2 && isCtrl(arg1, oid(clientObj(owner)))
-//@   sink Writer.Delete#1 requires [C05] *asstruct("sigs.k8s.io/controller-runtime/pkg/client.Preconditions", varargs[0]).UID == uid(arg1) && *asstruct("sigs.k8s.io/controller-runtime/pkg/client.Preconditions", varargs[0]).ResourceVersion == rv(arg1)
-//@   sink Writer.Delete#1 requires [C04] !tdPending()
+//@   sink Writer.Delete requires [C05] lastGet() == 2 && isCtrl(arg1, oid(clientObj(owner)))
+//@   sink Writer.Delete requires [C05] *asstruct("sigs.k8s.io/controller-runtime/pkg/client.Preconditions", varargs[0]).UID == uid(arg1) && *asstruct("sigs.k8s.io/controller-runtime/pkg/client.Preconditions", varargs[0]).ResourceVersion == rv(arg1)
+//@   sink Writer.Delete requires [C04] !tdPending()
 //@   sink Writer.Patch#1 requires [C05] lastGet() == 2 && !isCtrl(arg1, oid(clientObj(owner))) && isOwner(arg1, oid(clientObj(owner)))
 //@   ensures [C04] err == nil && cleanupDone ==> pfViolations() > 0 || lastGet() == 4 || (lastGet() == 2 && !lastGetCtrl()[oid(clientObj(owner))]) || lastDeleteGone()
 //@   ensures [C05] W() <= old(W()) + 1
